@@ -19,11 +19,18 @@ def make_zdir(files: dict[str, str], tag: str = "zd") -> Path:
     for rel, text in files.items():
         p = zdir / rel
         p.parent.mkdir(parents=True, exist_ok=True)
-        if isinstance(text, bytes):
-            p.write_bytes(text)
-        else:
-            p.write_text(text)
+        write_text(p, text)
     return zdir
+
+
+def write_text(p: Path, text) -> None:
+    """Byte-exact write: no newline translation; a lone surrogate \\udcXX stands for the raw byte
+    XX (so contents that are not valid UTF-8 can be written, snapshotted and replayed from JSON)."""
+    if isinstance(text, bytes):
+        p.write_bytes(text)
+    else:
+        with p.open("w", newline="", encoding="utf-8", errors="surrogateescape") as f:
+            f.write(text)
 
 
 def drop(zdir: Path) -> None:
@@ -49,7 +56,7 @@ def snapshot(zdir: Path, *, with_meta: bool = True) -> dict[str, str]:
             if not with_meta or not rel.endswith((".json", ".txt")):
                 continue
         # byte-exact: no universal-newline translation of \r\n or a lone \r
-        with p.open("r", newline="", errors="surrogateescape") as f:
+        with p.open("r", newline="", encoding="utf-8", errors="surrogateescape") as f:
             out[rel] = f.read()
     return out
 
@@ -58,8 +65,7 @@ def restore(zdir: Path, snap: dict[str, str]) -> None:
     for rel, text in snap.items():
         p = zdir / rel
         p.parent.mkdir(parents=True, exist_ok=True)
-        with p.open("w", newline="", errors="surrogateescape") as f:
-            f.write(text)
+        write_text(p, text)
 
 
 def db_create(zdir: Path, day: dt.date, *, force: bool = False) -> H.ChildResult:
